@@ -488,7 +488,15 @@ def arrnf(t):
             if fn == "numpy.full" and len(a) == 2 and a[0][0] not in ("seq", "arr"):
                 return ("fill", a[1], a[0])
             if fn == "numpy.concatenate" and len(a) == 1 and a[0][0] == "seq" and len(a[0][1]) >= 1:
-                return _concat(list(a[0][1]))
+                axis = dict(x[3]).get("axis", T.num(0)) if x[3] else T.num(0)
+                if axis == T.num(0) and any(p_[0] == "row" for p_ in a[0][1]):
+                    # joining (1, n) blocks below a matrix along axis 0 is vstack
+                    return ("call", "numpy.vstack", (T.seq(tuple(p_[1] if p_[0] == "row" else p_ for p_ in a[0][1])),), ())
+                if axis == T.num(1):
+                    return ("call", "numpy.hstack", (a[0],), ())
+                if axis == T.num(0):
+                    return _concat(list(a[0][1]))
+                return None
             if fn == "numpy.append" and len(a) == 2:
                 return _concat([a[0], a[1] if a[1][0] in ("seq", "fill", "concat", "rep") else T.seq((a[1],))])
             if fn == ("m", "reshape") and len(a) == 3 and a[1] == T.num(-1) and a[2] == T.num(1):
@@ -497,6 +505,19 @@ def arrnf(t):
                 return ("col", a[0])
         if k == "arr":
             return T.seq(x[1])
+        if k == "idx" and x[2][0] == "seq" and len(x[2][1]) == 2 and x[1][0] in ("fill", "concat", "seq"):
+            # v[np.newaxis, :] / v[None, :] is the 1-D vector as one row, v[:, np.newaxis] as one column
+            NEW = (("mod", "numpy.newaxis"), T.NONE)
+            full = ("slice", T.NONE, T.NONE, T.NONE)
+            a0, a1 = x[2][1]
+            if a0 in NEW and a1 == full:
+                return ("row", x[1])
+            if a1 in NEW and a0 == full:
+                return ("col", x[1])
+        if k == "call" and x[1] == ("m", "reshape") and len(x[2]) == 3 and x[2][1] == T.num(1) and x[2][2] == T.num(-1) and x[2][0][0] in ("fill", "concat", "seq"):
+            return ("row", x[2][0])
+        if k == "call" and x[1] == "numpy.atleast_2d" and len(x[2]) == 1 and x[2][0][0] in ("fill", "concat", "seq"):
+            return ("row", x[2][0])
         if k == "concat" and len(x) == 3:
             return _concat([x[1], x[2]])
         return None
@@ -515,6 +536,12 @@ def _concat(parts):
             pass
         elif p[0] == "seq" and flat and flat[-1][0] == "seq":
             flat[-1] = T.seq(flat[-1][1] + p[1])
+        elif p[0] == "fill" and flat and flat[-1][0] == "fill" and flat[-1][1] == p[1]:
+            flat[-1] = ("fill", p[1], T.add(flat[-1][2], p[2]))          # [c]*n + [c]*m == [c]*(n+m)
+        elif p[0] == "seq" and p[1] and flat and flat[-1][0] == "fill" and all(e == flat[-1][1] for e in p[1]):
+            flat[-1] = ("fill", flat[-1][1], T.add(flat[-1][2], T.num(len(p[1]))))
+        elif p[0] == "fill" and flat and flat[-1][0] == "seq" and flat[-1][1] and all(e == p[1] for e in flat[-1][1]):
+            flat[-1] = ("fill", p[1], T.add(p[2], T.num(len(flat[-1][1]))))
         else:
             flat.append(p)
     for p in parts:
